@@ -12,7 +12,8 @@ TRUSTED = T01 + ["pool.imap order and exception propagation (assumed)"]
 
 def _tasks0(tier):
     from props.taste_parents import parent_tasks
-    return worker_tasks("C04", ["sound"]) + dispatch_tasks("C04") + parent_tasks("C04")
+    from props.header_tasks import _ht
+    return worker_tasks("C04", ["sound"]) + dispatch_tasks("C04") + parent_tasks("C04") + _ht("C04", tier)
 
 
 def canaries(tier):
